@@ -23,6 +23,7 @@ impl<T> List<T> {
     }
 
     pub fn append(&self, elem: T) -> List<T> {
+        verif_point!("list.append");
         let len = self.len() + 1;
 
         List {
@@ -77,6 +78,7 @@ impl<'a, T> Iterator for Iter<'a, T> {
     type Item = &'a T;
 
     fn next(&mut self) -> Option<Self::Item> {
+        verif_point!("list.iter.next");
         self.next.map(|node| {
             self.next = node.next.as_deref();
             &node.elem
